@@ -9,17 +9,31 @@ EXTENDS FindSem, Json
 
 CONSTANTS LW, EMIT
 
+\* 'now' and the modification times: node i was modified AGE[i] before 'now' (the harness sets the real
+\* modification times relative to the clock it injects; status-change times are not under its control)
+NOW == <<1000000, 500>>
+AGE == << <<0, 5>>, <<59, 999999999>>, <<60, 0>>, <<59, 999999999>>, <<86400, 0>>, <<119, 0>>, <<60, 1>>, <<3600, 0>>, <<0, 0>>, <<120, 0>>, <<61, 0>> >>
+Back(a) == IF NOW[2] >= a[2] THEN <<NOW[1] - a[1], NOW[2] - a[2]>> ELSE <<NOW[1] - a[1] - 1, NOW[2] + 1000000000 - a[2]>>
 N(par, nm, kd, tg, sz, md, tx, hl, u, g) ==
   [parent |-> par, name |-> nm, kind |-> kd, target |-> tg, size |-> sz, mode |-> md, text |-> tx, hl |-> hl,
    uid |-> u, gid |-> g, nlink |-> 1, ino |-> 1]
-TREE == << N(0, <<100>>, "d", 0, 0, 493, <<>>, 0, 0, 0), N(1, <<102>>, "f", 0, 3, 420, <<>>, 0, 1000, 100),
+Timed(tr) == [i \in DOMAIN tr |-> [parent |-> tr[i].parent, name |-> tr[i].name, kind |-> tr[i].kind, target |-> tr[i].target,
+                                     size |-> tr[i].size, mode |-> tr[i].mode, text |-> tr[i].text,
+                                     hl |-> tr[i].hl, uid |-> tr[i].uid, gid |-> tr[i].gid, nlink |-> 1, ino |-> 1,
+                                     age |-> AGE[IF tr[i].hl # 0 THEN tr[i].hl ELSE i],
+                                     tm |-> [m |-> Back(AGE[IF tr[i].hl # 0 THEN tr[i].hl ELSE i]), c |-> NOW]]]
+TREE0 == << N(0, <<100>>, "d", 0, 64, 493, <<>>, 0, 0, 0), N(1, <<102>>, "f", 0, 3, 420, <<>>, 0, 1000, 100),
            N(1, <<101>>, "f", 0, 0, 384, <<>>, 0, 0, 0), N(1, <<103>>, "f", 0, 3, 420, <<>>, 2, 1000, 100),
-           N(1, <<115>>, "d", 0, 0, 448, <<>>, 0, 0, 0), N(5, <<120>>, "f", 0, 1, 2541, <<>>, 0, 54321, 0),
-           N(1, <<116>>, "d", 0, 0, 493, <<>>, 0, 0, 0), N(1, <<112>>, "p", 0, 0, 420, <<>>, 0, 0, 0),
+           N(1, <<115>>, "d", 0, 64, 448, <<>>, 0, 0, 0), N(5, <<120>>, "f", 0, 1, 2541, <<>>, 0, 54321, 0),
+           N(1, <<116>>, "d", 0, 64, 493, <<>>, 0, 0, 0), N(1, <<112>>, "p", 0, 0, 420, <<>>, 0, 0, 0),
            N(1, <<108, 102>>, "l", 2, 1, 511, <<102>>, 0, 0, 0), N(1, <<108, 115>>, "l", 5, 1, 511, <<115>>, 0, 0, 0),
            N(1, <<108, 122>>, "l", 0, 7, 511, <<110, 111, 119, 104, 101, 114, 101>>, 0, 0, 0) >>
+TREE == Timed(TREE0)
+\* (a directory's size is whatever the file system says, but never 0)
 \* d  d/f  d/e  d/g(=f)  d/s  d/s/x  d/t  d/p  d/lf->f  d/ls->s  d/lz->nowhere
 
+RXAST == [t |-> "cat", a |-> [t |-> "star", a |-> [t |-> "any"]],
+          b |-> [t |-> "cat", a |-> [t |-> "c", c |-> 47], b |-> [t |-> "cat", a |-> [t |-> "set", cs |-> {101, 108}, neg |-> FALSE], b |-> [t |-> "any"]]]]
 Op(t) == [k |-> "op", t |-> t]
 T(t) == [k |-> "test", q |-> t]
 Vocab ==
@@ -28,6 +42,11 @@ Vocab ==
     T([p |-> "perm", kind |-> "all", m |-> 64]), T([p |-> "empty"]), T([p |-> "samefile", ref |-> 2]),
     [k |-> "glob", on |-> "name", pat |-> <<108, 42>>, fold |-> FALSE],              \* -name 'l*'
     [k |-> "glob", on |-> "path", pat |-> <<42, 47, 115, 42>>, fold |-> FALSE],      \* -path '*/s*'
+    T([p |-> "size", form |-> "lt", n |-> 1, unit |-> "k"]),                             \* -size -1k: empty files only
+    T([p |-> "age", kind |-> "m", unit |-> "min", form |-> "gt", n |-> 0]),              \* -mmin +0
+    T([p |-> "newer", x |-> "m", y |-> "m", ref |-> 9]),                                 \* -newer d/lf (the link, or d/f under -L)
+    [k |-> "regex", ast |-> RXAST, fold |-> FALSE, text |-> RX!Concrete(RXAST, "emacs")], \* -regex '.*/[el].'
+    [k |-> "print", delim |-> 10, file |-> 1],                                           \* -fprint F1
     [k |-> "prune"], [k |-> "quit"], [k |-> "print", delim |-> 0],
     [k |-> "printf", fmt |-> <<37, 121, 37, 109, 58, 37, 80, 92, 110>>] }            \* -printf '%y%m:%P\n'
 
@@ -39,10 +58,12 @@ Next == \/ /\ phase = 0 /\ phase' = 1 /\ words' \in SeqsUpTo(Vocab, LW - 1) /\ U
            /\ \E w \in Vocab \cup {Op("end")} : words' = IF w = Op("end") THEN words ELSE Append(words, w)
 Spec == Init /\ [][Next]_vars
 
-cfg == [mode |-> mode, min |-> 0, max |-> NoMax, depth |-> depth, sorted |-> TRUE, prune |-> {}]
+cfg == [mode |-> mode, min |-> 0, max |-> NoMax, depth |-> depth, sorted |-> TRUE, prune |-> {},
+        syn |-> "emacs", now |-> NOW, users |-> {0}, groups |-> {0}]
 roots == << [spell |-> <<100>>, node |-> 1] >>
 ok == SemParse(words).ok
-out == FindOutput(words, TREE, cfg, roots)
+res == FindResult(words, TREE, cfg, roots)
+out == res.outs[0]
 U == WalkRoots(TREE, cfg, roots).ents
 
 \* without -prune and -quit the composition is the reference walk with the expression applied to every entry
@@ -58,7 +79,28 @@ PruneDepthLaw ==
   (picked /\ ok /\ depth) =>
      out = FindOutput(SelectSeq([i \in DOMAIN words |-> IF words[i].k = "prune" THEN [k |-> "const", v |-> TRUE] ELSE words[i]], LAMBDA w : TRUE), TREE, cfg, roots)
 
+\* the regex word as the harness takes it: the members of a set as a sequence
+RECURSIVE Seqd(_)
+Seqd(e) == IF e.t = "set" THEN [t |-> "set", cs |-> SetToSeq(e.cs), neg |-> e.neg]
+           ELSE IF e.t \in {"cat", "alt"} THEN [t |-> e.t, a |-> Seqd(e.a), b |-> Seqd(e.b)]
+           ELSE IF e.t \in {"grp", "star", "plus", "opt"} THEN [t |-> e.t, a |-> Seqd(e.a)]
+           ELSE e
+VecWords == [i \in DOMAIN words |-> IF words[i].k = "regex" THEN [k |-> "regex", ast |-> Seqd(words[i].ast), fold |-> words[i].fold, text |-> words[i].text]
+                                     ELSE words[i]]
+\* an output file holds exactly what the same action would have written to standard output
+FileLaw ==
+  (picked /\ ok) =>
+     LET std == [i \in DOMAIN words |-> IF IsAction(words[i]) /\ ChanOf(words[i]) = 1 THEN [k |-> "print", delim |-> 10, file |-> 0] ELSE
+                                         IF IsAction(words[i]) THEN [k |-> "const", v |-> TRUE] ELSE words[i]]
+     IN (\E i \in DOMAIN words : IsAction(words[i]) /\ ChanOf(words[i]) = 1) => res.outs[1] = FindOutput(std, TREE, cfg, roots)
+\* without a missing starting point or a loop nothing is diagnosed
+NoErrLaw == picked /\ ok => res.errs = 0
+
 EmitVectors ==
   (EMIT /\ picked /\ ok /\ SemDom(words, TREE, cfg, roots)) =>
-     PrintT(<<"VEC", ToJson([in |-> [tree |-> TREE, roots |-> roots, cfg |-> [cfg EXCEPT !.prune = <<>>], words |-> words], exp |-> [out |-> out]])>>)
+     PrintT(<<"VEC", ToJson([in |-> [tree |-> TREE, roots |-> roots,
+                                     cfg |-> [mode |-> mode, min |-> 0, max |-> NoMax, depth |-> depth, sorted |-> TRUE, prune |-> <<>>,
+                                              syn |-> "emacs", nowoff |-> <<0, NOW[2]>>],
+                                     words |-> VecWords],
+                             exp |-> [out |-> out, files |-> [c \in 1..2 |-> [there |-> c \in FilesNamed(words), b |-> res.outs[c]]]]])>>)
 =============================================================================
